@@ -156,12 +156,8 @@ func (d *DB) WaitCaughtUp(timeout time.Duration) bool {
 			if end == nil {
 				continue
 			}
-			offs := d.DB.VerifTableOffsets(t.Name)
-			if offs == nil {
-				all = false
-				break
-			}
-			if wOffsetAfter(end, offs[0]) {
+			processed, sent, applied := d.DB.VerifTableProgress(t.Name)
+			if wOffsetAfter(end, processed[0]) || sent != applied {
 				all = false
 				break
 			}
@@ -170,6 +166,12 @@ func (d *DB) WaitCaughtUp(timeout time.Duration) bool {
 			return true
 		}
 		if time.Now().After(deadline) {
+			if os.Getenv("VERIF_DEBUG") != "" {
+				for _, t := range d.Tables {
+					processed, sent, applied := d.DB.VerifTableProgress(t.Name)
+					fmt.Fprintf(os.Stderr, "WAITDBG table %s processed %v sent %d applied %d stream end %v\n", t.Name, processed, sent, applied, common.OffsetsBySource{0: ends[t.Stream]})
+				}
+			}
 			return false
 		}
 		time.Sleep(500 * time.Microsecond)
